@@ -92,7 +92,32 @@ def gen(item, rng, tier):
         core['regs']['pc'] = rng.choice([0, 4, 8, 0xFFFFFFF0, 0xFFFFFFF8, 0xFFFFFFFC, TOP + 0xFE0])
         for nme in rng.sample(M.RNAMES[:-1], 10):
             core['regs']['R'][nme] = rng.choice([0, 4, 8, 1, 0xFFFFFFF8, 0xFFFFFFFC, 0xFFFFFFFF, 0xFFFFFFF0, 0x80000000, 0x7FFFFFFF])
+        if rng.random() < 0.6:
+            # PC-relative instructions whose result passes 2^32 when executed near the top of the address space: table branches,
+            # forward branches, literal loads, ADR, ADD pc
+            rn_, rm_ = rng.sample(range(8), 2)
+            core['regs']['R']['R%dusr' % rn_] = G.DATA + 0x3C0 + rng.randrange(0, 0x40)      # a table of seeded bytes
+            core['regs']['R']['R%dusr' % rm_] = rng.randrange(0, 0x20)
+            core['regs']['pc'] = rng.choice([0xFFFFFFF0, 0xFFFFFFF8, 0xFFFFFFE0, 0xFFFFFFFC, TOP + 0xFC0])
+            thumb = (core['regs']['cpsr'] >> 5) & 1
+            for i in range(len(core['words'])):
+                if rng.random() < 0.35:
+                    core['words'][i] = _wrap_word(rng, thumb, rn_, rm_)
     return case
+
+
+def _wrap_word(rng, thumb, rn, rm):
+    sm = rng.randrange(1, 0x40)
+    if thumb:
+        return G._t16(rng.choice([
+            0xE8D0F000 | rn << 16 | rm, 0xE8D0F010 | rn << 16 | rm, 0xE8D0F000 | rn << 16 | rm,        # TBB / TBH [rn, rm]
+            0xE000 | sm, 0xF000B800 | sm, 0xF000F800 | sm, 0xF000E800 | (sm & ~1),                       # B, B.W, BL, BLX forward
+            0xB100 | (sm & 0x1F) << 3 | rm, 0xB900 | (sm & 0x1F) << 3 | rn,                              # CBZ / CBNZ
+            0xF20F0000 | rng.randrange(8) << 8 | sm, 0xA000 | rng.randrange(8) << 8 | sm,                # ADR
+            0xF8DF0000 | rng.randrange(8) << 12 | sm << 2, 0x4800 | rng.randrange(8) << 8 | sm,         # LDR literal
+            0x4487 | rm << 3, 0xD000 | rng.randrange(14) << 8 | sm]))                                    # ADD pc, rm ; B<cond>
+    return rng.choice([0xEA000000 | sm, 0xEB000000 | sm, 0xFA000000 | sm, 0xE08FF000 | rm, 0xE59FF000 | sm << 2, 0xE28F0000 | rng.randrange(8) << 12 | sm,
+                       0xE79FF100 | rm, 0x0A000000 | rng.randrange(15) << 28 | sm])
 
 
 # ------------------------------------------------------------------ bank_walk execution
